@@ -7,6 +7,10 @@ from model import strip, dstr, const_value, walk
 
 INF = float('inf')
 
+# library calls whose result is bounded by one of their arguments (index of that argument);
+# snprintf / vsnprintf are deliberately absent: they return the length the text *would* have had
+RETURNS_AT_MOST = {'read': 2, 'fread': 2, 'fwrite': 2, 'recv': 2, 'pread': 2}
+
 
 def _facts_bounds(f, facts, key):
     """(lo, hi) implied for the expression with canonical string `key` by the guard facts."""
@@ -74,6 +78,11 @@ def _b(f, ev, facts, d, depth):
                          and strip(e['l'])['n'] == d['n'])]
                 decl = [e for e in defs if e['k'] == 'decl' and e.get('init') is not None]
                 others = [e for e in defs if e['k'] == 'asg']
+                plain = [e for e in others if e['op'] == '=']
+                if plain and len(plain) == len(others) and all(x.get('init') is None for x in decl) and depth < 3:
+                    # declared without a value, then only plainly assigned: the union of the assigned values
+                    bs = [_b(f, None, {}, e.get('r'), depth + 1) for e in plain]
+                    lo, hi = max(lo, min(b[0] for b in bs)), min(hi, max(b[1] for b in bs))
                 if len(decl) == 1 and others and all(e['op'] in ('--', '-=') for e in others):
                     l2, h2 = bounds(f, decl[0], decl[0]['init'], depth + 1)
                     hi = min(hi, h2)
@@ -105,6 +114,10 @@ def _b(f, ev, facts, d, depth):
         return lo, hi
     if k == 'sizeof':
         return lo, hi
+    if k == 'call' and d.get('name') in RETURNS_AT_MOST and len(d.get('args') or []) > RETURNS_AT_MOST[d['name']]:
+        # read(fd, buf, n) <= n ; fread(buf, size, n, f) <= n  (items)
+        l2, h2 = _b(f, ev, facts, d['args'][RETURNS_AT_MOST[d['name']]], depth)
+        return lo, min(hi, h2)
     if k == 'call' and d.get('name', '').endswith('::size') or (k == 'call' and d.get('name', '').endswith('size')):
         return max(lo, 0), hi
     return lo, hi
